@@ -20,6 +20,10 @@ def account(v, results, prop_label, types=None, what="kernel output differs from
     for r in results:
         if r["status"] in ("rejected", "skipped"):
             st["rejected"] += 1
+            if r["status"] == "rejected" and not r["id"].startswith(("rnd", "r_", "random")) and "Error: name " in r.get("error", "") or "SyntaxError" in r.get("error", ""):
+                # a hand-written case that does not even build is a harness defect, never a quiet skip
+                v.oblige(False)
+                v.violation(f"harness-case:{r['id']}", f"case {r['id']} does not build: {r.get('error','')[:160]}", {"case": r["id"], "code": r["code"]}, no_input=True)
             continue
         if r["status"] != "ok":
             v.oblige(False)
